@@ -67,6 +67,33 @@ simple_keygen("array_gen_32", "<[u8; 32]>::gen", "<[u8; 32] as NewByteArray<32>>
 simple_keygen("vec_gen_32", "<Vec<u8> as NewByteArray<32>>::gen", "<Vec<u8> as NewByteArray<32>>::gen()", 32)
 simple_keygen("randombytes_buf_20", "randombytes_buf", "crate::rng::randombytes_buf(20)", 20)
 
+E("randombytes_buf_300", "randombytes_buf", r'''
+    let v = crate::rng::randombytes_buf(300);
+    kani::cover!(true, "returned");
+    assert!(v.len() == 300, "FRESH_LEN: whole length");
+    assert!(is_rng_span(0, &v[..]), "FRESH_OUTPUT: every byte of a long buffer is generator output of this call, in order, nothing left unwritten");
+''')
+
+E("copy_randombytes_257", "copy_randombytes", r'''
+    let mut v = [0u8; 257];
+    crate::rng::copy_randombytes(&mut v);
+    kani::cover!(true, "returned");
+    assert!(is_rng_span(0, &v[..]), "FRESH_OUTPUT: every byte of a long buffer is generator output of this call, in order, nothing left unwritten");
+''')
+
+E("pwhash_hash_salt24", "PwHash::hash", r'''
+    use crate::pwhash::*;
+    let pw: [u8; 4] = kani::any();
+    let r: Result<VecPwHash, _> = PwHash::hash(&pw, Config::interactive().with_salt_length(24));
+    kani::cover!(r.is_ok(), "hashed");
+    assert!(r.is_ok(), "PWHASH_OK: hashing succeeds (Argon2 stubbed)");
+    let (_hash, salt, _cfg) = r.unwrap().into_parts();
+    unsafe {
+        assert!(salt.as_slice().len() == 24 && is_rng_span(0, salt.as_slice()), "FRESH_OUTPUT: a non-default-length salt is generator output over its whole length");
+        assert!(A2S.n == 1 && A2S.saltlen == 24 && is_rng_span(0, &A2S.salt[..24]), "FRESH_SALT_USED: Argon2 is run with the fresh salt");
+    }
+''', extra=A2_STUB)
+
 E("secretstream_keygen", "crypto_secretstream_xchacha20poly1305_keygen", r'''
     let mut k = [0u8; 32];
     crate::classic::crypto_secretstream_xchacha20poly1305::crypto_secretstream_xchacha20poly1305_keygen(&mut k);
@@ -209,7 +236,7 @@ def suites(tier, seed):
             st = ("barrier", "fmt") + e["stubs"]
             src += rs.hdr(st, extra=RNG_STUB + e["extra"]) + "fn %s() {%s}\n" % (n, e["body"])
             stubs |= set(rs.stub_names(st, extra=RNG_STUB + e["extra"]))
-            hs.append(Harness(n, unwind=(132 if e["name"] == "sign_keypair" else 70), timeout=1800, site=e["site"],
+            hs.append(Harness(n, unwind=(132 if e["name"] == "sign_keypair" else 310 if e["name"] in ("randombytes_buf_300", "copy_randombytes_257") else 70), timeout=1800, site=e["site"],
                               desc="%s: returned secret/nonce/header/salt == this call's oracle output over its whole length; second call draws again" % e["site"],
                               bounds={"rng": "oracle, fresh symbolic array per call"}))
         # vacuity twin: asserting that a keygen output is a constant must fail
